@@ -120,6 +120,15 @@ def leave(kind, arg):
     raise RuntimeError('unknown exit path %r' % (kind,))
 
 
+def _break_stdout():
+    """fault at the very end of the child's life: its stdout is a
+    block-buffered stream with unflushed data whose flush fails (EPIPE)"""
+    r, w = os.pipe()
+    os.close(r)
+    sys.stdout = os.fdopen(w, 'w', buffering=65536)
+    sys.stdout.write('unflushed output of the child\n' * 4)
+
+
 def child(kind, arg, ready_path, release_path, delay):
     if kind == 'extsig':
         # the harness will send the signal: make sure it kills
@@ -138,6 +147,8 @@ def child(kind, arg, ready_path, release_path, delay):
         os._exit(98)
     if delay:
         time.sleep(delay)
+    if release_path.endswith('F'):
+        _break_stdout()
     return leave(kind, arg)
 
 
